@@ -12,7 +12,9 @@ theorem armPingNext_data (s : S) : (armPingNext s).data = s.data := rfl
 theorem emit_data (s : S) (o : Out) : (s.emit o).data = s.data := rfl
 
 theorem dropConnection_data (s : S) (a : Bool) : (dropConnection s a).data = s.data := by
-  unfold dropConnection; split <;> rfl
+  unfold dropConnection flushQueue; split
+  · cases a <;> rfl
+  · rfl
 
 theorem sendCloseFrame_data (s : S) (c : Option Nat) (r : Option Bytes) (i : Bool) :
     (sendCloseFrame s c r i).data = s.data := by
